@@ -1,3 +1,4 @@
+import math
 import numpy as np
 
 
@@ -87,7 +88,7 @@ class List(Expression):
         if any(v is None for v in values):
             return None
         else:
-            return np.prod(values)
+            return math.prod(values)
 
     def __iter__(self):
         for c in self.children:
@@ -161,7 +162,7 @@ class ConcatenatedAxis(Expression):
         if any(v is None for v in values):
             return None
         else:
-            return np.sum(values)
+            return sum(values)
 
     def __iter__(self):
         yield self
